@@ -55,6 +55,12 @@ int hostile_classes(void);
 /* run a closure in a forked child and collect what it writes to `fd` */
 int fork_collect(void (*fn)(void *arg, int fd), void *arg, Buf *out, int *status, char *crash_role, size_t crsz, Buf *asan);
 
+/* compile cache (zygote side): source text -> module, compiled by the nano_virt image in a forked simulation */
+typedef struct Prog { char key[40]; uint8_t *d; size_t n; bool ok; } Prog;
+Prog *prog_get(const char *src);
+Prog *prog_lookup(const char *key);
+uint64_t fnv64(const char *s);
+
 void default_knobs(void);
 void knobs_print(Buf *b);
 bool knobs_parse_line(const char *line);
